@@ -299,6 +299,43 @@ func FeasibleReturns(cl *ssa.Call, facts []BoolFact) []*ssa.Return {
 	return out
 }
 
+// DelegatedReturns: the returns of fn, where a return that hands on all the results of one call of a same-package
+// helper called nowhere else (return s.helper(x)) is replaced by the returns of that helper (three levels).
+func DelegatedReturns(fn *ssa.Function) []*ssa.Return {
+	var out []*ssa.Return
+	var walk func(fn *ssa.Function, d int)
+	walk = func(fn *ssa.Function, d int) {
+		for _, b := range fn.Blocks {
+			if len(b.Instrs) == 0 {
+				continue
+			}
+			r, ok := b.Instrs[len(b.Instrs)-1].(*ssa.Return)
+			if !ok {
+				continue
+			}
+			var cl *ssa.Call
+			same := len(r.Results) > 0
+			for i, v := range r.Results {
+				c2, idx := CallOfValue(Strip(v))
+				if c2 == nil || (cl != nil && c2 != cl) || !(idx == i || (idx < 0 && len(r.Results) == 1)) {
+					same = false
+					break
+				}
+				cl = c2
+			}
+			if same && cl != nil && d < 3 {
+				if sc := cl.Call.StaticCallee(); sc != nil && len(sc.Blocks) > 0 && PkgOf(sc) == PkgOf(fn) && SoleCallSite(sc) == ssa.Instruction(cl) {
+					walk(sc, d+1)
+					continue
+				}
+			}
+			out = append(out, r)
+		}
+	}
+	walk(fn, 0)
+	return out
+}
+
 var boundSitesMemo = map[*ssa.Function][]ssa.Instruction{}
 var boundUsedMemo = map[*ssa.Function]bool{}
 
@@ -1087,7 +1124,6 @@ func ThroughReturns(v ssa.Value) []ssa.Value {
 // PkgCallers: see pkgCallers.
 func PkgCallers(fn *ssa.Function) []ssa.Instruction { return pkgCallers(fn) }
 
-
 // LiftTo returns the instruction of fn that (transitively, through sole call sites) contains the execution of in:
 // in itself when it is in fn, the call of its function otherwise; nil if there is no such chain (three levels).
 func LiftTo(fn *ssa.Function, in ssa.Instruction) ssa.Instruction {
@@ -1133,7 +1169,6 @@ func DerivesThrough(v ssa.Value, pred ValPred) bool {
 	}
 	return walk(v, 0)
 }
-
 
 // throughReturns1: ThroughReturns, one level only.
 func throughReturns1(v ssa.Value) []ssa.Value {
